@@ -183,13 +183,13 @@ Gain ==
     /\ Check("C07:unit_coherence_for_proportional_channels", Near(e.coh, Q, 8))
     /\ Check("C09:unit_coherence_for_linearly_dependent_channels", Near(e.coh, Q, 8))
 
-(* lagging output: H ~ exp(-i 2 pi f d/fs); asserted where L >= 32 d *)
+(* lagging output: H ~ exp(-i 2 pi f d/fs); asserted where L >= 32 d and at least 4 segments are averaged *)
 Delay ==
     LET e == Ev
         dot == MulQ20(e.h[1], e.cp) + MulQ20(e.h[2], e.sp)
         crs == MulQ20(e.h[2], e.cp) - MulQ20(e.h[1], e.sp)
         mag2 == Sq(e.h[1]) + Sq(e.h[2])
-    IN IF e.L < 32 * e.d THEN TRUE ELSE
+    IN IF e.L < 32 * e.d \/ e.K < 4 THEN TRUE ELSE       \* (one to three segments: H = sum conj(X)Y / sum |X|^2 has a Rayleigh-small denominator with probability 1e-3)
        /\ Check("C07:delay_magnitude_near_one", mag2 >= 589824 /\ mag2 <= 1638400)         \* 0.75^2 .. 1.25^2
        /\ Check("C07:lagging_output_has_negative_phase", dot > 0 /\ 4 * Abs(crs) <= dot + 8)   \* |tan(err)| <= 1/4 (0.245 rad)
        \* single-bin requests over > 3000 segments (scatter < 0.0035 rad): the phase at the REPORTED frequency, |tan(err)| <= 1/64
